@@ -113,12 +113,14 @@ def handle : P String := do
     let g ← graphP
     let st := Coloring.greedy g
     let col := st.coloring.toList
-    pure s!"C {st.numColors} {showNatsL col} {showGraph (Coloring.partitionGraph st.numColors col)}"
+    let pg := Coloring.partitionGraph st.numColors col
+    pure s!"C {st.numColors} {showNatsL col} {showGraph pg} T {showGraph pg.transpose}"
   | "colororder" =>
     let g ← graphP; let order ← natList
     let st := Coloring.greedyOrdered g order
     let col := st.coloring.toList
-    pure s!"C {st.numColors} {showNatsL col} {showGraph (Coloring.partitionGraph st.numColors col)}"
+    let pg := Coloring.partitionGraph st.numColors col
+    pure s!"C {st.numColors} {showNatsL col} {showGraph pg} T {showGraph pg.transpose}"
   | "cm" =>
     let rev ← nat; let rt ← nat; let st ← nat; let g ← graphP
     match CM.compute g (rev != 0) (rootOf rt) (sortOf st) with
@@ -215,6 +217,73 @@ def handle : P String := do
       | some d => pure (fin d)
       | none => pure "ABORT"
     | _ => throw "unknown dynrender kind"
+  | "applyblk" =>
+    let kind ← nat; let v ← natList; let bs ← nat; let x ← natList
+    match Perm.construct kind v with
+    | none => pure "HANG"
+    | some p =>
+      let blocks := Perm.chunk bs p.perm.length x
+      let a := (Perm.applySwaps p.swap blocks.toArray).toList
+      let b := (Perm.applySwapsInv p.swap blocks.toArray).toList
+      let c := Perm.applyPerm p.perm blocks
+      let d := Perm.applyPermInv p.perm blocks
+      pure s!"AB {showNatsL a.flatten} {showNatsL b.flatten} {showNatsL c.flatten} {showNatsL d.flatten}"
+  | "dvperm" =>
+    -- `DenseVector(Blocked)::permute(perm)`: nothing for the empty permutation, size check, `perm.apply(elements)`
+    let blocked ← nat; let pv ← natList; let x ← natList
+    let bs := if blocked == 0 then 1 else 2
+    let n := x.length / bs
+    if pv.isEmpty then pure s!"DV {showNatsL x}"
+    else if pv.length != n then pure "ABORT"
+    else match Perm.construct 2 pv with
+      | none => pure "HANG"
+      | some p =>
+        let r := (Perm.applySwaps p.swap (Perm.chunk bs n x).toArray).toList
+        pure s!"DV {showNatsL r.flatten}"
+  | "isperm" =>
+    -- `IndexSet<3>::permute(perm, inv_perm_face)`
+    let pv ← natList; let qv ← natList; let bound ← nat; let x ← natList
+    let n := x.length / 3
+    let tuples := Perm.chunk 3 n x
+    let fin (t : List (List Nat)) : String :=
+      s!"IS {n} {bound} {showNatsL t.flatten} {showGraph ⟨bound, t⟩}"
+    if tuples.isEmpty then pure (fin tuples)
+    else if !pv.isEmpty && pv.length != n then pure "ABORT"
+    else if !qv.isEmpty && qv.length != bound then pure "ABORT"
+    else
+      let r := do
+        let t1 ← if pv.isEmpty then some tuples
+                 else (Perm.construct 2 pv).map fun p => (Perm.applySwaps p.swap tuples.toArray).toList
+        if qv.isEmpty then some t1 else some (t1.map fun t => t.map fun k => qv.getD k 0)
+      match r with
+      | some t => pure (fin t)
+      | none => pure "HANG"
+  | "vsperm" =>
+    let inv ← nat; let pv ← natList; let x ← natList
+    let n := x.length / 2
+    let blocks := Perm.chunk 2 n x
+    if pv.isEmpty || blocks.isEmpty then pure s!"VS {showNatsL blocks.flatten}"
+    else if pv.length != n then pure "ABORT"
+    else match Perm.construct 2 pv with
+      | none => pure "HANG"
+      | some p =>
+        let r := if inv != 0 then Perm.applySwapsInv p.swap blocks.toArray else Perm.applySwaps p.swap blocks.toArray
+        pure s!"VS {showNatsL r.toList.flatten}"
+  | "csrperm" =>
+    -- `SparseMatrixCSR(graph).permute(p, q)`: pattern = `Graph(graph, p, q⁻¹)` + `sort_indices`
+    -- (C19.graph_csr_permute_consistent); the values travel with their entries
+    let g0 ← graphP; let pv ← natList; let qv ← natList
+    let g := g0.injectify.sortIndices
+    let vals (h : Graph) (rowOf : Nat → Nat) (colKey : Nat → Nat) : List Nat :=
+      ((List.range h.nDom).map fun i =>
+        (Graph.sortList ((g.row (rowOf i)).map fun c => colKey c * 1000000 + (rowOf i * 1000 + c))).map (· % 1000000)).flatten
+    if pv.isEmpty && qv.isEmpty then
+      pure s!"CP {showGraph g} V {showNatsL (vals g id id)} {showGraph g}"
+    else if pv.length != g.nDom || qv.length != g.nImg then pure "ABORT"
+    else
+      let qi := Perm.invPerm qv
+      let r := (g.permuted pv qi).sortIndices
+      pure s!"CP {showGraph r} V {showNatsL (vals r (fun i => pv.getD i 0) (fun c => qi.getD c 0))} {showGraph r}"
   | _ => throw s!"unknown op {op}"
 
 def step (ts : Toks) : String :=
